@@ -131,6 +131,8 @@ def harnesses(tier):
         {'name': 'n3-missing-values-outside', 'fn': h, 'cfg': dict(BASE, n=3, est_none=True, spent_none=True, outside=True)},
         {'name': 'n4', 'fn': h, 'cfg': dict(BASE, n=4, spent_none=False)},
         {'name': 'n4-outside', 'fn': h, 'cfg': dict(BASE, n=4, spent_none=False, outside=True, link_pairs=[(0, 1), (1, 2), (2, 3), (0, 3)])},
+        {'name': 'n5-flat', 'fn': h, 'cfg': dict(BASE, n=5, spent_none=False, hierarchy=False, link_pairs=[(0, 1), (1, 2), (2, 3), (3, 4), (0, 4), (1, 3)])},
+        {'name': 'n4-deep', 'fn': h, 'cfg': dict(BASE, n=4, spent_none=False, fixed_parent=[-1, 0, 1, -1])},
         {'name': 'binary64-regression-menu', 'fn': h_float_menu, 'cfg': {}},
     ]
 
